@@ -11,16 +11,17 @@ open TdModel.C01
 
 theorem prelude_eq (O : Orders) (hO : GoodOrders O) (m : Mgr) :
     O.diffPrelude.foldl (Mgr.diffPreludeStep O) (m, none) =
-      (({ (m.seqOp O 0 .clear).seqOp O 1 .clear with
-            w := (((m.seqOp O 0 .clear).seqOp O 1 .clear).w.commonDiff
-                    ((m.seqOp O 0 .clear).seqOp O 1 .clear).pts.state
-                    ((m.seqOp O 0 .clear).seqOp O 1 .clear).qts.state).1 } : Mgr).emit
-          [.apiDiff ((m.seqOp O 0 .clear).seqOp O 1 .clear).pts.state ((m.seqOp O 0 .clear).seqOp O 1 .clear).qts.state],
-       some (((m.seqOp O 0 .clear).seqOp O 1 .clear).w.commonDiff
-                    ((m.seqOp O 0 .clear).seqOp O 1 .clear).pts.state
-                    ((m.seqOp O 0 .clear).seqOp O 1 .clear).qts.state).2) := by
+      (({ ((m.seqOp O 0 .clear).seqOp O 1 .clear).clearSeqGaps with
+            w := ((((m.seqOp O 0 .clear).seqOp O 1 .clear).clearSeqGaps).w.commonDiff
+                    (((m.seqOp O 0 .clear).seqOp O 1 .clear).clearSeqGaps).pts.state
+                    (((m.seqOp O 0 .clear).seqOp O 1 .clear).clearSeqGaps).qts.state).1 } : Mgr).emit
+          [.apiDiff (((m.seqOp O 0 .clear).seqOp O 1 .clear).clearSeqGaps).pts.state
+            (((m.seqOp O 0 .clear).seqOp O 1 .clear).clearSeqGaps).qts.state],
+       some ((((m.seqOp O 0 .clear).seqOp O 1 .clear).clearSeqGaps).w.commonDiff
+                    (((m.seqOp O 0 .clear).seqOp O 1 .clear).clearSeqGaps).pts.state
+                    (((m.seqOp O 0 .clear).seqOp O 1 .clear).clearSeqGaps).qts.state).2) := by
   rw [hO.diffPrelude]
-  simp [List.foldl, Mgr.diffPreludeStep]
+  simp only [List.foldl, Mgr.diffPreludeStep]
 
 theorem minv_tooLong_seq {O log keys org start m} (hO : GoodOrders O) (hS : Scn log keys org)
     (h : MInv O log keys org start m) (k : Nat) (hk1 : k ≠ 1) (p : Int) :
@@ -38,9 +39,9 @@ theorem minv_getDifference {O log keys org start} (hO : GoodOrders O) (hS : Scn 
     intro m h
     unfold Mgr.getDifference
     rw [prelude_eq O hO]
-    have h2 : MInv O log keys org start ((m.seqOp O 0 .clear).seqOp O 1 .clear) :=
-      minv_clear hO hS (minv_clear hO hS h 0) 1
-    generalize hm2 : (m.seqOp O 0 .clear).seqOp O 1 .clear = m2 at *
+    have h2 : MInv O log keys org start ((m.seqOp O 0 .clear).seqOp O 1 .clear).clearSeqGaps :=
+      minv_withSeq (minv_clear hO hS (minv_clear hO hS h 0) 1) _
+    generalize hm2 : ((m.seqOp O 0 .clear).seqOp O 1 .clear).clearSeqGaps = m2 at *
     have h3 : MInv O log keys org start
         (({ m2 with w := (m2.w.commonDiff m2.pts.state m2.qts.state).1 } : Mgr).emit [.apiDiff m2.pts.state m2.qts.state]) :=
       minv_emit_neutral (minv_world h2 _ (commonDiff_static m2.w m2.pts.state m2.qts.state)) _ (neutral_api log keys _ _)
@@ -50,7 +51,14 @@ theorem minv_getDifference {O log keys org start} (hO : GoodOrders O) (hS : Scn 
     have hq3 : m3.qts = m2.qts := by rw [← hm3]; rfl
     simp only
     cases hans : (m2.w.commonDiff m2.pts.state m2.qts.state).2 with
-    | empty => simpa using h3
+    | empty =>
+      simp only
+      exact foldl_inv (MInv O log keys org start) _ O.diffEmpty (fun _ => True)
+        (fun b c hb _ => by
+          show MInv O log keys org start (if c = Call.boxSetSeq then b.setSeqNow else b)
+          split
+          · exact minv_setSeqNow hb
+          · exact hb) m3 h3 (fun _ _ => trivial)
     | error => simpa using h3
     | tooLong p =>
       simp only
@@ -177,7 +185,7 @@ theorem minv_chGetDifference {O log keys org start} (hO : GoodOrders O) (hS : Sc
              else m2) := by
           split
           · refine ⟨⟨h2.coh.hlog, h2.coh.box, h2.coh.tr, h2.coh.wf, h2.coh.pend, h2.coh.nobox⟩, h2.p0, h2.q0, h2.c0,
-              h2.queues, ?_, h2.startP, h2.startC⟩
+              h2.queues, ?_, h2.startP, h2.startC, h2.parked⟩
             intro cont hc e he
             show e ∈ log
             have hc' : cont ∈ m2.internal ++ [(part.filter (·.kind == .chother) ++ m1.w.extrasOf (2 + c)).filter
